@@ -92,23 +92,30 @@ void _ZNSt7__cxx1112basic_stringIcSt11char_traitsIcESaIcEE7reserveEm(Str* s, siz
 // ---------------------------------------------------------------- exceptions from <stdexcept>
 struct LogicErr { void* vptr; char* msg; };
 static char* dupmsg(const char* s) { size_t n = strlen(s); char* r = (char*)malloc(n + 1); memcpy(r, s, n + 1); return r; }
-void _ZNSt11logic_errorC2EPKc(LogicErr* e, const char* m) { e->msg = dupmsg(m); }
-void _ZNSt11logic_errorC1EPKc(LogicErr* e, const char* m) { e->msg = dupmsg(m); }
-void _ZNSt11logic_errorC2ERKNSt7__cxx1112basic_stringIcSt11char_traitsIcESaIcEEE(LogicErr* e, const Str* m) { e->msg = dupmsg(m->p); }
-void _ZNSt11logic_errorC1ERKNSt7__cxx1112basic_stringIcSt11char_traitsIcESaIcEEE(LogicErr* e, const Str* m) { e->msg = dupmsg(m->p); }
-void _ZNSt11logic_errorC2ERKS_(LogicErr* e, const LogicErr* o) { e->msg = dupmsg(o->msg); }
+// the objects get a vtable of their own (slots: offset-to-top, typeinfo, D1, D0, what), so that a catch by std::exception& can call what()
 void _ZNSt11logic_errorD2Ev(LogicErr*) {}
 void _ZNSt11logic_errorD1Ev(LogicErr*) {}
 void _ZNSt11logic_errorD0Ev(LogicErr* e) { free(e); }
 const char* _ZNKSt11logic_error4whatEv(const LogicErr* e) { return e->msg; }
-void _ZNSt13runtime_errorC2EPKc(LogicErr* e, const char* m) { e->msg = dupmsg(m); }
-void _ZNSt13runtime_errorC1EPKc(LogicErr* e, const char* m) { e->msg = dupmsg(m); }
-void _ZNSt13runtime_errorC2ERKNSt7__cxx1112basic_stringIcSt11char_traitsIcESaIcEEE(LogicErr* e, const Str* m) { e->msg = dupmsg(m->p); }
-void _ZNSt13runtime_errorC1ERKNSt7__cxx1112basic_stringIcSt11char_traitsIcESaIcEEE(LogicErr* e, const Str* m) { e->msg = dupmsg(m->p); }
 void _ZNSt13runtime_errorD2Ev(LogicErr*) {}
 void _ZNSt13runtime_errorD1Ev(LogicErr*) {}
 void _ZNSt13runtime_errorD0Ev(LogicErr* e) { free(e); }
 const char* _ZNKSt13runtime_error4whatEv(const LogicErr* e) { return e->msg; }
+extern const char vf_ti_logic_error asm("_ZTISt11logic_error");
+extern const char vf_ti_runtime_error asm("_ZTISt13runtime_error");
+const void* vf_vt_logic_error[5] asm("_ZTVSt11logic_error") = {0, &vf_ti_logic_error, (const void*)&_ZNSt11logic_errorD1Ev, (const void*)&_ZNSt11logic_errorD0Ev, (const void*)&_ZNKSt11logic_error4whatEv};
+const void* vf_vt_runtime_error[5] asm("_ZTVSt13runtime_error") = {0, &vf_ti_runtime_error, (const void*)&_ZNSt13runtime_errorD1Ev, (const void*)&_ZNSt13runtime_errorD0Ev, (const void*)&_ZNKSt13runtime_error4whatEv};
+static void le_init(LogicErr* e, const char* m) { e->vptr = (void*)&vf_vt_logic_error[2]; e->msg = dupmsg(m); }
+static void re_init(LogicErr* e, const char* m) { e->vptr = (void*)&vf_vt_runtime_error[2]; e->msg = dupmsg(m); }
+void _ZNSt11logic_errorC2EPKc(LogicErr* e, const char* m) { le_init(e, m); }
+void _ZNSt11logic_errorC1EPKc(LogicErr* e, const char* m) { le_init(e, m); }
+void _ZNSt11logic_errorC2ERKNSt7__cxx1112basic_stringIcSt11char_traitsIcESaIcEEE(LogicErr* e, const Str* m) { le_init(e, m->p); }
+void _ZNSt11logic_errorC1ERKNSt7__cxx1112basic_stringIcSt11char_traitsIcESaIcEEE(LogicErr* e, const Str* m) { le_init(e, m->p); }
+void _ZNSt11logic_errorC2ERKS_(LogicErr* e, const LogicErr* o) { le_init(e, o->msg); }
+void _ZNSt13runtime_errorC2EPKc(LogicErr* e, const char* m) { re_init(e, m); }
+void _ZNSt13runtime_errorC1EPKc(LogicErr* e, const char* m) { re_init(e, m); }
+void _ZNSt13runtime_errorC2ERKNSt7__cxx1112basic_stringIcSt11char_traitsIcESaIcEEE(LogicErr* e, const Str* m) { re_init(e, m->p); }
+void _ZNSt13runtime_errorC1ERKNSt7__cxx1112basic_stringIcSt11char_traitsIcESaIcEEE(LogicErr* e, const Str* m) { re_init(e, m->p); }
 void _ZNSt9exceptionD2Ev(void*) {}
 const char* _ZNKSt9exception4whatEv(const void*) { return "std::exception"; }
 
@@ -192,6 +199,16 @@ void _ZNSt10filesystem7__cxx114path14_M_split_cmptsEv(FsPath*) {}
 void _ZNSt10filesystem12current_pathB5cxx11Ev(FsPath* ret) { str_init(&ret->s, "/", 1); ret->impl = 0; }
 FsPath* _ZNSt10filesystem7__cxx114pathdVERKS1_(FsPath* p, const FsPath* o)
 { if (p->s.n && p->s.p[p->s.n - 1] != '/') _ZNSt7__cxx1112basic_stringIcSt11char_traitsIcESaIcEE9_M_appendEPKcm(&p->s, "/", 1); _ZNSt7__cxx1112basic_stringIcSt11char_traitsIcESaIcEE9_M_appendEPKcm(&p->s, o->s.p, o->s.n); return p; }
-size_t _ZNKSt10filesystem7__cxx114path17_M_find_extensionEv(const FsPath*) { return (size_t)-1; }
+struct FsExt { const Str* str; size_t pos; };   // std::pair<const string_type*, size_t>
+FsExt _ZNKSt10filesystem7__cxx114path17_M_find_extensionEv(const FsPath* p)
+{
+    const Str* s = &p->s; size_t start = 0;
+    for (size_t i = 0; i < s->n; i++) if (s->p[i] == '/') start = i + 1;
+    size_t len = s->n - start;
+    if (len == 0) return FsExt{0, (size_t)-1};
+    if ((len == 1 && s->p[start] == '.') || (len == 2 && s->p[start] == '.' && s->p[start + 1] == '.')) return FsExt{s, (size_t)-1};
+    for (size_t i = s->n; i-- > start + 1;) if (s->p[i] == '.') return FsExt{s, i};
+    return FsExt{s, (size_t)-1};
+}
 
 }
